@@ -15,6 +15,11 @@ KANI_UNITS = {
 }
 
 NATIVE_UNITS = {
+    "lexer_position_witness": {"file": "src/parser/lexer.rs", "source": "lexer_position.rs", "modpath": "parser::lexer",
+                               "test": "verif_native_lexer_position_witness", "role": "witness",
+                               "for_fns": ["advance", "next", "try_next", "atmosphere", "comment", "normal_identifier", "dot_subsequent",
+                                           "percular_identifier", "quoted_identifier", "string", "number", "digital10",
+                                           "number_suffix", "real", "from_char_stream"]},
     "panic_probe": {"file": "src/interpreter/interpreter.rs", "source": "panic_probe.rs",
                     "modpath": "interpreter::interpreter", "test": "verif_native_panic_probe",
                     "role": "witness", "for_fns": ["pop_proper", "pop", "number", "digital10", "number_suffix", "real",
@@ -65,7 +70,7 @@ PROPS = {
         "assumptions": [],
     },
     "C15": {
-        "verus": ["lexer_pos", "interp_loc"], "kani": [], "native": [],
+        "verus": ["lexer_pos", "interp_loc"], "kani": [], "native": ["lexer_position_witness"],
         "level": "proof",
         "explanation": "Two of the stages through which locations are threaded are proved for all inputs: Lexer::advance maintains the exact "
                        "1-based line and the column recurrence over the consumed prefix (so a token's position is never on an earlier line "
@@ -102,7 +107,7 @@ PROPS = {
         "assumptions": ["functional oracle for the opaque evaluator: one evaluation of the test and two are not distinguished"],
     },
     "C08": {
-        "verus": ["interp_tail", "values_num", "valref_mut"], "kani": [], "native": ["tail_arity_witness"],
+        "verus": ["interp_tail", "values_num", "valref_mut"], "kani": ["values"], "native": ["tail_arity_witness"],
         "level": "proof",
         "explanation": "The argument-count test is proved to hold before EVERY hand-over to apply_scheme_procedure / a builtin body in the "
                        "trampoline loop (first call and every tail call), and an unacceptable count is proved to yield the ArgumentMissMatch "
